@@ -1,0 +1,14 @@
+//go:build verif
+
+package fasthttp
+
+// Thin export for the /verif correspondence harness (property C28).
+
+// VerifArgsNoValue returns the noValue flag of every query argument, in order.
+func VerifArgsNoValue(a *Args) []bool {
+	out := make([]bool, len(a.args))
+	for i := range a.args {
+		out[i] = a.args[i].noValue
+	}
+	return out
+}
